@@ -1,9 +1,64 @@
-(* C46 — Stream junctions preserve elements and per-branch order. Statements only. *)
+(* C46 — Stream junctions preserve elements and per-branch order.
+   Statements only; the model is C46/Model.v, the proofs are in C46/FanIn.v and C46/FanOut.v.
+
+   Fan-in ([fan_reach recv srcs init fs s], [concat_reach]): the junction source actor in state s after ANY
+   number of steps in ANY interleaving of: sub-pipeline i delivering its next element, sub-pipeline i reporting
+   done after its last element, downstream requesting n > 0 elements. [srcs] are the sources (any number, any
+   lengths). Fan-out ([hub_reach k n input (e, s)]): the hub actor of kind k with n branches after any
+   interleaving of: branch i signalling demand, the upstream pipeline delivering the next element of [input]
+   (never more than the hub requested), upstream completing. No branch cancels, no sub-pipeline fails. *)
 From Coq Require Import ZArith List Bool.
-From GV Require Import C46.Model C46.Proofs.
+From GV Require Import C46.Model C46.FanIn C46.FanOut C46.Proofs.
 Import ListNotations.
 Open Scope Z_scope.
 
-Theorem C46_placeholder : forall n, m_out (merge_init n) = [].
-Proof. exact merge_init_out. Qed.
-Print Assumptions C46_placeholder.
+(* Merge: every delivered element comes from one of the sources; the elements delivered from source i are a
+   prefix of source i (own order preserved); completion is signalled at most once, and then every source has
+   been delivered completely — the output is an interleaving of the sources. *)
+Theorem C46_merge_is_an_interleaving : forall srcs fs s,
+  fan_reach merge_recv srcs (merge_init (length srcs)) fs s ->
+  (m_completed s <= 1)%nat /\
+  Forall (fun x => (fst x < length srcs)%nat) (m_out s) /\
+  (forall i, (i < length srcs)%nat -> prefix (proj i (m_out s)) (nth i srcs [])) /\
+  (m_completed s = 1%nat -> forall i, (i < length srcs)%nat -> proj i (m_out s) = nth i srcs []).
+Proof. exact merge_spec. Qed.
+
+(* Concat: the output is a prefix of source0 ++ source1 ++ ..., and all of it at completion. *)
+Theorem C46_concat_is_append : forall srcs segs s,
+  concat_reach srcs segs s ->
+  (c_completed s <= 1)%nat /\ prefix (c_out s) (concat srcs) /\
+  (c_completed s = 1%nat -> c_out s = concat srcs).
+Proof. exact concat_spec. Qed.
+
+(* Zip: tuple k holds the k-th element of every source, there are never more tuples than the shortest source
+   has elements, and at completion exactly as many. *)
+Theorem C46_zip_is_positional : forall srcs fs s,
+  fan_reach zip_recv srcs (zip_init (length srcs)) fs s ->
+  let n := length srcs in
+  (z_completed s <= 1)%nat /\
+  Forall (fun t => length t = n) (z_out s) /\
+  (forall i k, (i < n)%nat -> (k < length (z_out s))%nat ->
+      nth i (nth k (z_out s) []) 0 = nth k (nth i srcs []) 0) /\
+  (forall i, (i < n)%nat -> (length (z_out s) <= length (nth i srcs []))%nat) /\
+  (z_completed s = 1%nat -> n = O \/ exists j, (j < n)%nat /\ length (z_out s) = length (nth j srcs [])).
+Proof. exact zip_spec_thm. Qed.
+
+(* Broadcast / Balance / Partition hubs, any number n >= 1 of branches ([kind_ok]: Partition routes into range):
+   nothing is dropped, no branch is served beyond the demand it signalled, and for the consumed prefix of the
+   input ([route_ok]):
+     Broadcast   every branch has received exactly that prefix, in order;
+     Balance     the routed elements are exactly that prefix, each to one branch (< n), so the branch
+                 sequences partition it, each in source order;
+     Partition   element v went to branch (v mod md).
+   When upstream has completed the prefix is the whole input. *)
+Theorem C46_hub_routes_every_element : forall k n input e s,
+  kind_ok k n -> hub_reach k n input (e, s) ->
+  h_dropped s = [] /\ Forall (fun d => 0 <= d) (h_demand s) /\
+  (exists cons, input = cons ++ e_rest e /\ route_ok k n cons (h_routed s)) /\
+  (e_completed e = true -> route_ok k n input (h_routed s)).
+Proof. exact hub_spec. Qed.
+
+Print Assumptions C46_merge_is_an_interleaving.
+Print Assumptions C46_concat_is_append.
+Print Assumptions C46_zip_is_positional.
+Print Assumptions C46_hub_routes_every_element.
